@@ -379,6 +379,7 @@ func c09Defects() []repDefect {
 		{"nonce+1", false, func(c *repCase, r *RNG) { c.encNonceOff = 1 }},
 		{"nonce-earlier", false, func(c *repCase, r *RNG) { c.encNonceOff = -(1 + r.Intn(100000)) }},
 		{"encsname", false, func(c *repCase, r *RNG) { c.encSName = []string{"krbtgt", "OTHER.REALM"} }},
+		{"encsname-joined", false, func(c *repCase, r *RNG) { c.encSName = []string{"="} }},
 		{"encsname-short", false, func(c *repCase, r *RNG) { c.encSName = []string{"krbtgt"} }},
 		{"encsrealm", false, func(c *repCase, r *RNG) { c.encSRealm = "OTHER.REALM" }},
 		{"reqaddrs+same", false, func(c *repCase, r *RNG) {
@@ -400,6 +401,12 @@ func c09Defects() []repDefect {
 		{"auth=+skew+1s", false, func(c *repCase, r *RNG) { c.authOff = c.skew + time.Second; c.startOff = c.skew + time.Second }},
 		{"auth=-skew", false, func(c *repCase, r *RNG) { c.authOff = -c.skew; c.startOff = -c.skew }},
 		{"auth=-skew-1s", false, func(c *repCase, r *RNG) { c.authOff = -c.skew - time.Second; c.startOff = -c.skew - time.Second }},
+		// beyond the range of a time.Duration (292 years): Sub saturates, a hand-made absolute value overflows
+		{"auth=+400y", false, func(c *repCase, r *RNG) { c.authYears = 400; c.startYears = 400 }},
+		{"auth=+7900y", false, func(c *repCase, r *RNG) { c.authYears = 7900; c.startYears = 7900 }},
+		{"auth=-400y", false, func(c *repCase, r *RNG) { c.authYears = -400; c.startYears = -400 }},
+		{"auth=+400y-nostart", false, func(c *repCase, r *RNG) { c.authYears = 400; c.noStart = true }},
+		{"start=+400y-auth-now", false, func(c *repCase, r *RNG) { c.startYears = 400 }},
 		{"auth-old-start-now", false, func(c *repCase, r *RNG) { c.authOff = -3 * time.Hour }},
 		{"auth-old-nostart", false, func(c *repCase, r *RNG) { c.authOff = -3 * time.Hour; c.noStart = true }},
 		{"start-late-auth-now", false, func(c *repCase, r *RNG) { c.startOff = 2 * time.Hour }},
